@@ -90,7 +90,7 @@ package controller
 //@   atcall[rescaled] ensureNoThirdPartyIsMessingWithUs: minPwm <= target && target <= maxPwm && maxPwm == fans.fanMax(f.fan) && minPwm == floorOf(f)
 //@   atcall[C04.formula C07] ensureNoThirdPartyIsMessingWithUs: target == rescaleOf(control_loop.clampInt(lastCycleOut, 0, 255), minPwm, maxPwm)
 //@   ensures[C04.request C07] err == nil && f.minPwmOffset == old(f.minPwmOffset) ==> target == rescaleOf(control_loop.clampInt(lastCycleOut, 0, 255), old(floorOf(f)), old(fans.fanMax(f.fan)))
-//@   ensures[C01.range C02 C05 C10 C03 C09] err == nil ==> old(fans.fanMin(f.fan)) <= target && target <= old(fans.fanMax(f.fan))
+//@   ensures[C01.range C02 C05 C10 C03 C09 C04] err == nil ==> old(fans.fanMin(f.fan)) <= target && target <= old(fans.fanMax(f.fan))
 //@   ensures[C01.inv C02 C05 C10 C03 C09 C04 C07]   ctrlInv(f)
 //@   ensures[C01.maxconst C02 C05 C10 C03 C09] fans.fanMax(f.fan) == old(fans.fanMax(f.fan)) && f.pwmMap == old(f.pwmMap) && f.lastSetPwm == old(f.lastSetPwm)
 //@   ensures[C02.floor]  err == nil && fans.fanNeverStop(f.fan) ==> target >= old(floorOf(f))
@@ -121,7 +121,8 @@ package controller
 
 //@ func (*DefaultFanController).UpdateFanSpeed
 //@   params (f)
-//@   props C01 C02 C05 C10 C09
+//@   props C01 C02 C05 C10 C09 C04
+//@   ensures[C04.fedback] result == nil && f.minPwmOffset == old(f.minPwmOffset) ==> f.lastSetPwm != nil && *f.lastSetPwm == rescaleOf(control_loop.clampInt(lastCycleOut, 0, 255), old(floorOf(f)), old(fans.fanMax(f.fan)))
 //@   split f.fan
 //@   safety C09
 //@   requires ctrlInv(f) && mapInv(f)
